@@ -22,7 +22,7 @@ ASSUMPTIONS = ['"loads back to equal directives" is a property of Beancount\'s p
 FROMS = [None, "year >= 2020", "flag = '*'", "OPEN ON 2020-01-01", "CLOSE ON 2020-07-01", "OPEN ON 2019-06-01 CLOSE ON 2020-06-01 CLEAR",
          "has_account('Food') CLOSE ON 2021-01-01", "CLEAR"]
 WHERES = [None, "account ~ 'Assets'", "number > 0", "currency = 'USD' AND account ~ 'Expenses'"]
-PATTERNS = [None, 'Assets', 'Expenses:Food', 'Bank|Card', '^Income', 'nomatch']
+PATTERNS = [None, 'Assets', 'Expenses:Food', 'Assets:Bank', 'Assets:Broker', 'Bank|Card', '^Income', 'nomatch']
 FUNCS = [None, 'units', 'cost']
 
 
